@@ -10,12 +10,12 @@ import (
 
 func init() {
 	register("C11", propMeta{
-		Explanation: "Decides, on every path: the application callbacks run only on the packet's destination chain (receive) and only on the packet's source chain (acknowledgement), so a relay chain never runs application logic or needs a route; in the relay branch of Keeper.RecvPacket (this chain == packet relay chain) the re-commitment and the send_packet event are dominated by RoutingKeeper.Authenticate(packet source, dest, port) == true and by the destination client being found, and re-commit exactly the verified commitment under the packet's own key; msgServer.RecvPacket turns ErrUnauthorized into a written error acknowledgement and a successful message; every refusal issued after the receipt was written is that sentinel (otherwise the refusal is rolled back and no error acknowledgement can travel back); the relay branch of AcknowledgePacket stores the verified acknowledgement commitment for the next hop under the packet's key after the source client was found; the proving-chain selection in RecvPacket/AcknowledgePacket/WriteAcknowledgement/RecvCleanPacket picks the relay chain only under 'this chain is the endpoint and a relay chain is set'. NOT decided: end-to-end equality with a direct transfer over three chains.",
+		Explanation: "Decides, on every path: the application callbacks run only on the packet's destination chain (receive) and only on the packet's source chain (acknowledgement), so a relay chain never runs application logic or needs a route; in the relay branch of Keeper.RecvPacket (this chain == packet relay chain) the re-commitment and the send_packet event are dominated by RoutingKeeper.Authenticate(packet source, dest, port) == true and by the destination client being found, and re-commit exactly the verified commitment under the packet's own key; msgServer.RecvPacket turns ErrUnauthorized into a written error acknowledgement and a successful message; every refusal issued after the receipt was written is that sentinel (otherwise the refusal is rolled back and no error acknowledgement can travel back); the relay branch of AcknowledgePacket stores the verified acknowledgement commitment for the next hop under the packet's key after the source client was found; the proving-chain selection in RecvPacket/AcknowledgePacket/WriteAcknowledgement/RecvCleanPacket picks the relay chain only under 'this chain is the endpoint and a relay chain is set'. Also: Authenticate matches a stored rule exactly field-wise (the converter and result-discipline obligations shared with C12), the transfer applications never read the packet's relay-chain field (their effects for a relayed packet are those for a direct one), and no code reachable from a message handler branches the store (the error-acknowledgement path commits receipt and acknowledgement together). NOT decided: end-to-end equality with a direct transfer over three chains as a behaviour.",
 		Assumptions: []string{"cosmos-sdk store branching discards writes of failed messages"},
 		Trusted:     commonTrusted,
 	}, ruleC11)
 	register("C13", propMeta{
-		Explanation: "Decides the structural core of the property: a packet field that influences dispatch, branching, client selection or store keys in the receive/acknowledge path (msgServer.RecvPacket, msgServer.Acknowledgement, Keeper.RecvPacket, Keeper.AcknowledgePacket, Keeper.WriteAcknowledgement, Keeper.ValidatePacket) must be authenticated, i.e. be bound into the proven key (source, dest, sequence) or into the committed value CommitPacket(packet); additionally ValidatePacket accepts only packets naming this chain as source, destination or relay chain, and the handlers run the application callback on every accepting path of the responsible chain (a missing route is an error, not a silent skip). Fields used but not authenticated are reported per function and field. NOT decided: which concrete attack a given unauthenticated field enables.",
+		Explanation: "Decides the structural core of the property: a packet field that influences dispatch, branching, client selection or store keys in the receive/acknowledge path (msgServer.RecvPacket, msgServer.Acknowledgement, Keeper.RecvPacket, Keeper.AcknowledgePacket, Keeper.WriteAcknowledgement, Keeper.ValidatePacket) must be authenticated, i.e. be bound into the proven key (source, dest, sequence) or into the committed value CommitPacket(packet); additionally ValidatePacket accepts only packets naming this chain as source, destination or relay chain, and the handlers run the application callback on every accepting path of the responsible chain (a missing route is an error, not a silent skip). Fields used but not authenticated are reported per function and field. The structural guards that stand in for the missing authentication are checked too: the verifying client is chosen by one table (relay chain iff this chain is the endpoint and a relay chain is named, else the far end) and is looked up for a chain the packet names, with no fallback to another client. NOT decided: which concrete attack a given unauthenticated field enables.",
 		Assumptions: []string{"light-client verification binds exactly key and value (C01/C08)"},
 		Trusted:     commonTrusted,
 	}, ruleC13)
